@@ -7,6 +7,7 @@
   any length.
 -/
 import Djc.Proofs.Bind
+import Djc.Proofs.BindEquiv
 namespace Djc.Props.C11
 open Djc.AList Djc.Model.Bind Djc.Spec.Bind Djc.Proofs.Bind
 
@@ -102,16 +103,45 @@ theorem not_C11_full_dup_special :
             [.kw "data-x" 1, .kw "data-x" 2]) = false := by
   decide
 
-/-- Both witnesses lie outside `H`; inside `H` the statement is `C11_partial`
-(open, see DESIGN.md §8 C11: decided by the correspondence, not yet by a theorem). -/
+/-- Both witnesses lie outside `H`. -/
 example : ¬ H (fun _ => false)
     ({ posonly := [⟨"a", some 1000⟩], poskw := [], varargs := none, kwonly := [], varkw := some "kw" } : Sig String)
     [] := by
   intro h; exact absurd h.1 (by decide)
 
-/-- OPEN (not yet a theorem; decided on the current tree by the correspondence only): inside `H`
-the tag behaves exactly as the Python call. Reported under `open_statements`, never counted. -/
-def tagCall_eq_pyCall_partial_open : Prop := C11_partial
+/-! ### inside `H` the tag behaves exactly as the Python call -/
+
+/-- **The main equivalence.**  For every key type, every well-formed signature without positional-only
+parameters (any number of positional-or-keyword and keyword-only parameters, with or without defaults, with or
+without `*args` / `**kwargs`), every argument list of any length in which no non-identifier key is given twice,
+and both validator paths: the tag — `wrapper_render` splitting off the non-identifier keys, `validate_params`
+(positional phase, keyword phase, `update(extra_kwargs)`, the defaults loop) and the final call of `render` with
+the validated arguments — either binds exactly what the Python call `render(*args, **kwargs)` binds (named
+parameters and `*args` equal, `**kwargs` equal as dictionaries), or both refuse.  Helper lemmas:
+`Djc/Proofs/BindEquiv.lean`. -/
+theorem tagCall_agrees_with_pyCall_in_H (path : Path) (special : κ → Bool) (s : Sig κ) (args : List (Arg κ))
+    (hwf : WF special s) (hH : H special s args) :
+    agree (tagCall path special s args) (pyCall s args) = true :=
+  Djc.Proofs.BindEquiv.tagCall_agrees_with_pyCall path special s args hwf hH
+
+/-- `C11_partial` (the statement of `Djc/Spec/Bind.lean` for string keys) is a theorem. -/
+theorem tagCall_eq_pyCall_partial : C11_partial :=
+  fun path special s args hwf hH => tagCall_agrees_with_pyCall_in_H path special s args hwf hH
+
+/-- **A positional argument after a keyword argument is always refused** (no hypothesis on the signature or on
+the keys): where the Python call is a `SyntaxError`, the tag raises too. -/
+theorem positional_after_keyword_refused (path : Path) (special : κ → Bool) (s : Sig κ) (args : List (Arg κ))
+    (h : pyCall s args = .error .syntax) : rejects (tagCall path special s args) = true := by
+  apply Djc.Proofs.BindEquiv.tagCall_posAfterKw
+  apply Djc.Proofs.BindEquiv.splitArgs_none
+  unfold pyCall at h
+  cases hs : splitArgs args with
+  | none => rfl
+  | some pk =>
+    obtain ⟨P, K⟩ := pk
+    rw [hs] at h
+    simp only at h
+    exact absurd h (fun hh => by have := pyBind_err_type hh; cases this)
 
 /-! ### non-vacuity -/
 
